@@ -58,7 +58,20 @@ def ptr_history(rnd, first_id):
     t = A.t_struct("PS", fields)
     defs = A.render(t)
     compiled = rnd.random() < 0.5
-    cs = codec.load(defs, mode, compiled)
+    if rnd.random() < 0.3 and "struct PS" in defs:
+        # the pointer width is configured AFTER other definitions with the same pointer targets were loaded under another width:
+        # what is declared afterwards has the configured width (nothing about a pointer type may be remembered per target)
+        other = dict(mode, ptr=rnd.choice([w for w in (1, 2, 4, 8) if w != mode["ptr"]]))
+        cs = codec.load(defs.replace("struct PS", "struct PW"), other, compiled)
+        if rnd.random() < 0.5:
+            try:
+                cs.PW(bytes(cs.PW.size))
+            except Exception:  # noqa: BLE001
+                pass
+        cs.pointer = cs.resolve(A.PTRTYPES[mode["ptr"]])
+        cs.load(defs[defs.index("struct PS"):], compiled=compiled, align=mode["align"])
+    else:
+        cs = codec.load(defs, mode, compiled)
     T = cs.PS
     base = {"type": t, "mode": mode, "consts": {"_": 0}}
     events, rid = [], first_id
